@@ -22,15 +22,23 @@
 /* ---------------- channel operation log ---------------- */
 enum { OP_SET = 1, OP_PUSH = 2, OP_POP = 3 };
 #define LOGN 8
-unsigned g_op_n;                 /* operations so far */
-unsigned g_chan_fail;            /* how many of them failed */
-int g_op_kind[LOGN];
-struct chan *g_op_chan[LOGN];
-int64_t g_op_type[LOGN];
-int64_t g_op_i[LOGN];
+/* one struct per log: a single assigns target keeps DFCC's write-set loops short */
+struct c07_oplog {
+	unsigned n;                  /* operations so far */
+	unsigned fail;               /* how many of them failed */
+	int kind[LOGN];
+	struct chan *chan[LOGN];
+	int64_t type[LOGN];
+	int64_t i[LOGN];
+} g_ol;
+#define g_op_n (g_ol.n)
+#define g_chan_fail (g_ol.fail)
+#define g_op_kind (g_ol.kind)
+#define g_op_chan (g_ol.chan)
+#define g_op_type (g_ol.type)
+#define g_op_i (g_ol.i)
 #define OPLOG_PRE (g_op_n == 0 && g_chan_fail < 1000000u)
-#define OPLOG_FRAME g_op_n, g_chan_fail, __CPROVER_object_whole(g_op_kind), __CPROVER_object_whole(g_op_chan), \
-	__CPROVER_object_whole(g_op_type), __CPROVER_object_whole(g_op_i)
+#define OPLOG_FRAME g_ol
 
 static int chan_log(int kind, struct chan *chan, struct value value)
 {
@@ -72,17 +80,29 @@ static inline struct value spec_chan_read(struct chan *c)
 }
 
 /* ---------------- call log of the task layer ---------------- */
-unsigned g_tl_n;                 /* task-layer calls so far */
-int g_tl_kind;                   /* 'x','p','r','e' or 'c' (task_create) */
-struct task_stack *g_tl_stack;
-struct task *g_tl_task;
-uint32_t g_tl_bid;
-int g_tl_ret;
-struct task_info *g_tl_info;
-uint32_t g_tl_type_id, g_tl_task_id, g_tl_flags;
+struct c07_tlog {
+	unsigned n;                  /* task-layer calls so far */
+	int kind;                    /* 'x','p','r','e' or 'c' (task_create) */
+	struct task_stack *stack;
+	struct task *task;
+	uint32_t bid;
+	int ret;
+	struct task_info *info;
+	uint32_t type_id, task_id, flags;
+} g_tl;
+#define g_tl_n (g_tl.n)
+#define g_tl_kind (g_tl.kind)
+#define g_tl_stack (g_tl.stack)
+#define g_tl_task (g_tl.task)
+#define g_tl_bid (g_tl.bid)
+#define g_tl_ret (g_tl.ret)
+#define g_tl_info (g_tl.info)
+#define g_tl_type_id (g_tl.type_id)
+#define g_tl_task_id (g_tl.task_id)
+#define g_tl_flags (g_tl.flags)
 #define TL_PRE (g_tl_n < 1000000u)
-#define TL_FRAME g_tl_n, g_tl_kind, g_tl_stack, g_tl_task, g_tl_bid, g_tl_ret, g_tl_info, g_tl_type_id, g_tl_task_id, g_tl_flags
-#define TL_OP_FRAME g_tl_n, g_tl_kind, g_tl_stack, g_tl_task, g_tl_bid, g_tl_ret
+#define TL_FRAME g_tl
+#define TL_OP_FRAME g_tl
 #define TL_OP(k) \
 	__CPROVER_requires(TL_PRE) \
 	__CPROVER_assigns(TL_OP_FRAME) \
@@ -94,17 +114,31 @@ int cl_task_resume(struct task_stack *stack, struct task *task, uint32_t body_id
 int cl_task_end(struct task_stack *stack, struct task *task, uint32_t body_id) TL_OP('e');
 int cl_task_create(struct task_info *info, uint32_t type_id, uint32_t task_id, uint32_t flags)
 __CPROVER_requires(TL_PRE)
-__CPROVER_assigns(g_tl_n, g_tl_kind, g_tl_ret, g_tl_info, g_tl_type_id, g_tl_task_id, g_tl_flags)
+__CPROVER_assigns(TL_FRAME)
 __CPROVER_ensures(g_tl_n == OLD(g_tl_n) + 1 && g_tl_kind == 'c' && g_tl_info == info && g_tl_type_id == type_id &&
 	g_tl_task_id == task_id && g_tl_flags == flags && g_tl_ret == RV)
 ;
 
 /* ---------------- sequence log of update_task's helpers ---------------- */
-unsigned g_seq;                          /* helper calls so far */
-unsigned g_at_state, g_at_ss, g_at_chan, g_at_rules;   /* position of each helper's call */
-int g_ret_state, g_ret_ss, g_ret_chan, g_ret_rules;
-char g_ss_tr, g_chan_tr, g_rules_tr;
-void *g_chan_prev, *g_chan_next, *g_rules_next;
+unsigned g_seq;                                  /* helper calls so far */
+/* one record per helper: position of its call, its result, its arguments */
+struct c07_seqrec { unsigned at; int ret; char tr; void *prev, *next; };
+struct c07_seqrec g_sq_state, g_sq_ss, g_sq_chan, g_sq_rules;
+#define g_at_state (g_sq_state.at)
+#define g_at_ss (g_sq_ss.at)
+#define g_at_chan (g_sq_chan.at)
+#define g_at_rules (g_sq_rules.at)
+#define g_ret_state (g_sq_state.ret)
+#define g_ret_ss (g_sq_ss.ret)
+#define g_ret_chan (g_sq_chan.ret)
+#define g_ret_rules (g_sq_rules.ret)
+#define g_ss_tr (g_sq_ss.tr)
+#define g_chan_tr (g_sq_chan.tr)
+#define g_rules_tr (g_sq_rules.tr)
+#define g_chan_prev (g_sq_chan.prev)
+#define g_chan_next (g_sq_chan.next)
+#define g_rules_next (g_sq_rules.next)
+#define SEQ_FRAME g_seq, g_sq_state, g_sq_ss, g_sq_chan, g_sq_rules
 struct body *g_nb;                       /* candidate top of the stack after the state update */
 #define SEQ_PRE (g_seq < 1000000u)
 
